@@ -5,7 +5,19 @@ import os
 HERE = os.path.dirname(os.path.dirname(os.path.abspath(__file__)))
 
 CLAIMED = {
-    "C10": dict(
+    "C11": dict(
+        level="exploration", design="DESIGN.md 3/C11",
+        text=("Per run a dependency graph is generated (managed int / list attributes, an unmanaged attribute, cached and uncached "
+              "spec_properties with invalidated_by lists incl. '*', attribute -> attribute -> property and property -> property "
+              "chains, a dependant declared in a spec or plain subclass, caches filled in __post_init__) and a seeded history "
+              "interleaves reads, overrides and every mutation entry point (setattr, delattr, scalar helper, element helper, update, "
+              "transform, reset; in place and copy-on-write; some failing through an ill-typed value or an injected callback fault). "
+              "After every step every property read must equal a cache-free reference evaluation of current state, invalidated_by "
+              "attributes whose dependency changed are back at their default, and after an unrelated or failed mutation every cache "
+              "slot is the same object as before."),
+        note="Trusted: the reference evaluator / invalidation closure in specsim/props/c11.py. Overrides are only placed on properties without dependencies (what invalidation does to an override is not documented).",
+        technique="deterministic simulation: seeded dependency graphs x operation histories with injected faults, cache-free reference evaluation",
+    ),    "C10": dict(
         level="exploration", design="DESIGN.md 3/C10",
         text=("Invariants over the live instance pool of seeded histories (classes additionally hold bound methods, functions, "
               "classes and modules at seeded attribute positions): == / != in both directions on seeded pairs and triples (same "
